@@ -234,7 +234,18 @@ func c17Copy(m map[string][]byte) map[string][]byte {
 }
 
 // c17Contents compares lookups, full iteration and prefix iteration of s with the model.
-func c17Contents(s trie.Immutable, model map[string][]byte, pool [][]byte, prefixes [][]byte) string {
+// order: 0 = lookups first, 1 = iteration first (the nodes of a freshly reloaded or cache-cleared trie
+// are then loaded by the iterator, not by Get), 2 = prefix iteration first
+func c17Contents(s trie.Immutable, model map[string][]byte, pool [][]byte, prefixes [][]byte, order int) string {
+	if order != 0 {
+		ps := append([][]byte{nil}, prefixes...)
+		if order == 2 && len(prefixes) > 0 {
+			ps = append(append([][]byte{}, prefixes...), nil)
+		}
+		if msg := c17Iterate(s, model, ps); msg != "" {
+			return msg
+		}
+	}
 	for _, k := range pool {
 		v, err := s.Get(k)
 		if err != nil {
@@ -251,8 +262,12 @@ func c17Contents(s trie.Immutable, model map[string][]byte, pool [][]byte, prefi
 	if s.Empty() != (len(model) == 0) {
 		return fmt.Sprintf("Empty()=%v with %d stored pairs", s.Empty(), len(model))
 	}
+	return c17Iterate(s, model, append([][]byte{nil}, prefixes...))
+}
+
+func c17Iterate(s trie.Immutable, model map[string][]byte, ps [][]byte) string {
 	keys := c17SortedKeys(model)
-	for _, p := range append([][]byte{nil}, prefixes...) {
+	for _, p := range ps {
 		var want []string
 		for _, k := range keys {
 			if strings.HasPrefix(k, string(p)) {
@@ -367,7 +382,7 @@ func TestC17(t *testing.T) {
 			rt.Fatalf("C17 violated: %s\n pool=%x\n ops=%s", fmt.Sprintf(format, args...), pool, strings.Join(ops, " "))
 		}
 		verify := func(s trie.Immutable, m map[string][]byte, what string) {
-			if msg := c17Contents(s, m, pool, prefixes); msg != "" {
+			if msg := c17Contents(s, m, pool, prefixes, rapid.IntRange(0, 2).Draw(rt, "readOrder")); msg != "" {
 				fail("%s: %s", what, msg)
 			}
 			got := s.Hash()
